@@ -12,7 +12,7 @@ import random
 
 import z3
 
-from vlib import circ, circgen, refsem, symeval
+from vlib import circ, circgen, forkexec, refsem, symeval
 from vlib.symeval import SymState, lift, zb
 from checks.common import REPLAY_PRELUDE, ref_concrete
 
@@ -40,23 +40,37 @@ def operator_lemmas(p, item, tier, seed):
     tname, k = item
     t = TYPES[tname]
     xs = [z3.Bool(f"a{i}") for i in range(k)]
-    res = lift(t.operator(*[SymState(x, False) for x in xs]))
     ref = refsem.ref_op(tname, xs)
-    p.case(("oplemma", tname, k), sample=f"operator lemma {tname}/{k}: real operator(*sym) == reference")
-    r, m = p.check([z3.Or(zb(res.u), zb(res.t) != ref)], label=f"oplemma {tname}/{k}")
-    if r == "sat":
-        vals = [symeval.model_bool(m, x) for x in xs]
-        p.violation(
-            f"operator:{tname}:arity{k}",
-            f"{tname}.operator{tuple(vals)} differs from the reference function",
-            REPLAY_PRELUDE
-            + f"from cirbo.core.circuit import gate as G\n"
-            f"vals={vals!r}\nreal=G.{tname}.operator(*vals)\nexp=refsem.ref_op_py({tname!r}, vals)\n"
-            "print('real', real, 'expected', exp)\nsys.exit(1 if real is not exp else 0)\n",
-        )
-    else:
+    # Normally one path.  If the operator *branches* on its operands (e.g. a rewritten fast path), the
+    # forking executor explores every feasible branch instead of giving up.
+    paths, stats = forkexec.explore(lambda: lift(t.operator(*[SymState(x, False) for x in xs])), catch=(Exception,), max_paths=4096)
+    p.case(("oplemma", tname, k), sample=f"operator lemma {tname}/{k}: real operator(*sym) == reference ({stats['paths']} path(s))")
+    if not stats["covered"]:
+        p.error(f"operator {tname}/{k}: path coverage not proven")
+    found = False
+    for path in paths:
+        if path.exc is not None:
+            wrong = z3.BoolVal(True)
+        else:
+            res = path.result
+            wrong = z3.Or(zb(res.u), zb(res.t) != ref)
+        r, m = p.check([path.cond(), wrong], label=f"oplemma {tname}/{k}")
+        if r == "sat":
+            vals = [symeval.model_bool(m, x) for x in xs]
+            p.violation(
+                f"operator:{tname}:arity{k}",
+                f"{tname}.operator{tuple(vals)} differs from the reference function" + (f" (raised {type(path.exc).__name__})" if path.exc else ""),
+                REPLAY_PRELUDE
+                + f"from cirbo.core.circuit import gate as G\n"
+                f"vals={vals!r}\nexp=refsem.ref_op_py({tname!r}, vals)\n"
+                f"try:\n    real=G.{tname}.operator(*vals)\nexcept Exception as e:\n    real=repr(e)\n"
+                "print('real', real, 'expected', exp)\nsys.exit(1 if real is not exp else 0)\n",
+            )
+            found = True
+            break
+    if not found and len(paths) == 1 and paths[0].exc is None:
         # canary (vacuity guard): the same query against the negated oracle must be refuted
-        r2, _ = p.check([zb(res.t) != z3.Not(ref)], label="canary")
+        r2, _ = p.check([zb(paths[0].result.t) != z3.Not(ref)], label="canary")
         p.canary(r2 == "sat")
 
 
@@ -288,12 +302,19 @@ def _replay_for(c_src, assign, entry, lab):
     )
 
 
-def _check_concrete_circuit(p, name, c, with_tt=True):
+def _check_concrete_circuit(p, name, c, with_tt=True, build_src=None):
     zs = {lab: z3.Bool(f"x{i}") for i, lab in enumerate(c.inputs)}
     nl = circ.netlist_of(c)
     ER = refsem.denote(nl, zs)
     symeval.clear_oob()
-    dis = _entrypoint_disagreements(c, zs, ER)
+    paths, stats = forkexec.explore(lambda: _entrypoint_disagreements(c, zs, ER), catch=(), max_paths=512)
+    if len(paths) > 1:
+        p.count("circuits_evaluated_on_several_paths")
+        dis = [("forked", None, z3.Or(*[z3.And(pp.cond(), z3.Or(*[d[2] for d in pp.result])) for pp in paths]))]
+        for pp in paths:
+            dis += [(d[0], d[1], z3.And(pp.cond(), d[2])) for d in pp.result]
+    else:
+        dis = paths[0].result
     nontrivial = any(t.name != "INPUT" for t in (g.gate_type for g in c.gates.values()))
     p.case(("compose", circ.snapshot(c)[:3]), nontrivial=nontrivial,
            sample=f"{name}: {circ.describe(c)}")
@@ -307,7 +328,7 @@ def _check_concrete_circuit(p, name, c, with_tt=True):
         p.violation(
             f"evaluate:{entry.split('[')[0].split('(')[0]}:{name.split('[')[0]}",
             f"{entry} at gate {lab} differs from reference semantics on {assign} for {circ.describe(c)}",
-            _replay_for(circ.circ_src(c), assign, entry, lab),
+            _replay_for(build_src or circ.circ_src(c), assign, entry, lab),
         )
         return
     if with_tt and len(c.inputs) <= 4:
@@ -332,8 +353,31 @@ def _check_concrete_circuit(p, name, c, with_tt=True):
             p.violation(
                 f"evaluate:{entry.split('[')[0]}:{name.split('[')[0]}",
                 f"{entry} for gate {lab} differs from reference semantics for {circ.describe(c)}",
-                _replay_for(circ.circ_src(c), assign, entry, lab),
+                _replay_for(build_src or circ.circ_src(c), assign, entry, lab),
             )
+
+
+def history_circuit(rnd, tag):
+    """A circuit reached through a short history of public mutator calls (+ source that replays it)."""
+    from checks import mutators
+
+    c0 = circgen.random_circuit(rnd, rnd.randint(1, 3), rnd.randint(1, 5), max_arity=3, n_outputs=rnd.randint(1, 3))
+    circgen.add_random_blocks(c0, rnd, 1)
+    c = mutators.rebuild(c0)
+    calls = []
+    for step in range(rnd.randint(1, 4)):
+        call = mutators.random_call(rnd, c, step=step)
+        if call is None or call["kind"] == "copy":
+            continue
+        try:
+            c = mutators.apply_call(c, call)
+            calls.append(call)
+        except Exception:  # noqa: BLE001
+            break
+    if circ.wf_problems(c, check_topsort=False):
+        return None, None  # well-formedness is C02's business
+    src = circ.circ_src(c0) + f"\nfrom checks import mutators\nfor call in {calls!r}:\n    c = mutators.apply_call(c, call)\n"
+    return c, src
 
 
 def compose_concrete(p, item, tier, seed):
@@ -343,6 +387,12 @@ def compose_concrete(p, item, tier, seed):
             _check_concrete_circuit(p, "feature:" + name, c)
             # relabelled + re-ordered insertion variant must behave identically
             _check_concrete_circuit(p, "feature-relabelled:" + name, _relabel_shuffle(c, random.Random(seed + 1)))
+    elif kind == "history":
+        rnd = random.Random(arg)
+        for i in range(40 if tier == "quick" else 120):
+            c, src = history_circuit(rnd, f"{arg}:{i}")
+            if c is not None and len(c.inputs) <= 6:
+                _check_concrete_circuit(p, f"history[{arg}:{i}]", c, with_tt=(i % 4 == 0), build_src=src)
     elif kind == "seeded":
         s, count, maxg, maxi = arg
         rnd = random.Random(s)
@@ -473,6 +523,8 @@ def run(rep, tier, seed, only=None):
         per = 60 if thorough else 16
         rep.pmap(compose_concrete, [("seeded", (seed * 1000 + s, per, 14 if thorough else 9, 6 if thorough else 5))
                                     for s in range(n_seeds)])
+    if sub("history"):
+        rep.pmap(compose_concrete, [("history", seed * 77 + s) for s in range(48 if thorough else 16)])
     if sub("systematic"):
         work = []
         if thorough:
